@@ -154,7 +154,7 @@ def check(run, replay=None):
     run.rule = ("random responses over the empty custom type (0..6 sub-messages of every CosmosMsg kind available under the harness features, "
                 "ids incl. u64::MAX, payloads, gas limits, all reply triggers, attributes, events, data) converted by the real "
                 "IntoResponse::<MyMsg>::into_response and by the model; every kind alone; non-trivial = distinct response")
-    libcommon.preamble(run, "Props/C11", THEOREMS)
+    libcommon.preamble(run, "Props/C11", THEOREMS, needs=("into_msg", "features"))
     # search for a failing input when the feature theorem no longer holds: the witnessing feature set, for real
     try:
         w = feature_witness()
